@@ -65,6 +65,13 @@ func NewGzipResponseWriter(w http.ResponseWriter, contentTypes *regexp.Regexp) *
 }
 
 func (grw *GzipResponseWriter) WriteHeader(code int) {
+	// An informational header (1xx, e.g. 103 Early Hints) is followed by the
+	// header of the actual response. Pass it on and decide on compression
+	// only when that one is written.
+	if code >= 100 && code <= 199 && code != http.StatusSwitchingProtocols {
+		grw.ResponseWriter.WriteHeader(code)
+		return
+	}
 	if grw.writer == nil {
 		if isCompressable(grw.Header(), grw.contentTypes) {
 			grw.Header().Del(headerContentLength)
